@@ -834,7 +834,7 @@ fn run_adversary(scn: &AdvScn, tape: Tape) -> RunOutput {
             let to_victim = adv.wr.clone();
             let from_victim = adv.rd.clone();
             let mut essential = Vec::new();
-            let shared = Rc::new(crate::profiles::server::ServerShared { handler_tasks: RefCell::new(Vec::new()), stream_over: std::cell::Cell::new(false) });
+            let shared = crate::profiles::server::ServerShared::new();
             if !scn.attack_client {
                 use crate::profiles::server::{server_task, HandlerPlan, RunMode};
                 let mon: Rc<dyn Fn(bool, bool)> = Rc::new(|_, _| {});
